@@ -112,9 +112,15 @@ def hasGroup (ts : List Tok) : Bool := ts.any (fun t => isBg t || isEg t || (mat
 def charOf : Tok → List Nat
   | .ch c => [c] | .sp => [32] | _ => []
 
+/-- `str.isspace()` of one character: what Python's `str.strip()` removes (also the Unicode blanks NBSP, U+2000–U+200A,
+    U+3000, …, which TeX treats as ordinary characters — only the ends of a *string-typed* value lose them) -/
+def isPySpace (c : Nat) : Bool :=
+  (9 ≤ c && c ≤ 13) || (28 ≤ c && c ≤ 32) || c == 133 || c == 160 || c == 5760 || (8192 ≤ c && c ≤ 8202) ||
+  c == 8232 || c == 8233 || c == 8239 || c == 8287 || c == 12288
+
 def stripL : List Nat → List Nat
-  | 32 :: r => stripL r
-  | r => r
+  | [] => []
+  | c :: r => if isPySpace c then stripL r else c :: r
 def strip (s : List Nat) : List Nat := (stripL (stripL s).reverse).reverse
 
 /-- text of the tokens with group tokens dropped, stripped: `normalize` on plain text, `textContent.strip()` otherwise -/
